@@ -472,8 +472,11 @@ func (w *Worker) global(s *State, g *ssa.Global) *Obj {
 	o := s.newObj("cell", w.zero(et))
 	// sentinel errors of packages whose initialisers are not executed (io.EOF, http.ErrAbortHandler …)
 	// are distinct opaque non-nil errors
-	if g.Pkg != nil && len(g.Pkg.Func("init").Blocks) == 0 && types.Identical(et, types.Universe.Lookup("error").Type()) {
-		o.Val = w.newError(s, w.tc.Str(g.Pkg.Pkg.Path()+"."+g.Name()))
+	if g.Pkg != nil && len(g.Pkg.Func("init").Blocks) == 0 {
+		if types.Identical(et, types.Universe.Lookup("error").Type()) {
+			o.Val = w.newError(s, w.tc.Str(g.Pkg.Pkg.Path()+"."+g.Name()))
+		}
+		o.Shared = true
 	}
 	s.globals[g] = o
 	return o
